@@ -7,7 +7,7 @@ from excel2pycl.src.tokens import ExpressionToken, AmpersandToken, DateControlCo
     TodayControlConstructionToken, EqOperatorToken, NotEqOperatorToken, GtOperatorToken, GtOrEqualOperatorToken, \
     LtOperatorToken, LtOrEqualOperatorToken, OneLeftOperandExpressionToken, PlusOperatorToken, MinusOperatorToken, \
     MultiplicationOperatorToken, DivOperatorToken, OneOperandArithmeticOperatorToken, BracketStartToken, \
-    RegexpBaseToken, OperandToken
+    RegexpBaseToken, OperandToken, PercentOperatorToken
 from excel2pycl.src.translators.abstract_translator import AbstractTranslator
 
 
@@ -15,6 +15,7 @@ class _Operand(NamedTuple):
     signs: List[RegexpBaseToken]
     token: Union[OperandToken, OneLeftOperandExpressionToken, ExpressionToken]
     brackets: bool
+    percents: int
 
 
 class _Operation(NamedTuple):
@@ -34,7 +35,7 @@ class ExpressionTokenTranslator(AbstractTranslator):
     @classmethod
     def translate(cls, token: ExpressionToken | OneLeftOperandExpressionToken, excel: Excel, context: Context) -> str:
         if isinstance(token, OneLeftOperandExpressionToken):
-            return cls._translate_tree(_Operand([], token, False), excel, context)
+            return cls._translate_tree(_Operand([], token, False, 0), excel, context)
 
         return cls._translate_tree(cls._group(token), excel, context)
 
@@ -61,9 +62,16 @@ class ExpressionTokenTranslator(AbstractTranslator):
                 token = token.value[1]
 
             if token.value[0].__class__ is BracketStartToken:
-                tree, rest = _Operand(signs, token.value[1], True), token.value[3:]
+                operand, brackets, rest = token.value[1], True, token.value[3:]
             else:
-                tree, rest = _Operand(signs, token.value[0], False), token.value[1:]
+                operand, brackets, rest = token.value[0], False, token.value[1:]
+
+            percents = 0
+            if rest and rest[0].__class__ is PercentOperatorToken:
+                # percent signs after a bracketed expression: (1+2)%
+                percents, rest = rest[0].count, rest[1:]
+
+            tree = _Operand(signs, operand, brackets, percents)
 
             operator, token = (rest[0].operator, rest[1]) if rest else (None, None)
             level = cls._level(operator) if operator else -1
@@ -81,7 +89,7 @@ class ExpressionTokenTranslator(AbstractTranslator):
     @classmethod
     def _is_percentage(cls, tree: _Operand | _Operation) -> bool:
         if isinstance(tree, _Operand):
-            return isinstance(tree.token, OneLeftOperandExpressionToken)
+            return isinstance(tree.token, OneLeftOperandExpressionToken) or tree.percents > 0
 
         return cls._level(tree.operator) >= 2 and cls._is_percentage(tree.left)
 
@@ -93,14 +101,20 @@ class ExpressionTokenTranslator(AbstractTranslator):
         if isinstance(tree, _Operand):
             signs = ''.join([OperatorSubTokenTranslator.translate(sign, excel, context) for sign in tree.signs])
 
+            percents = tree.percents
             if tree.brackets:
-                return f'{signs}({cls.translate(tree.token, excel, context)})'
-
-            if isinstance(tree.token, OneLeftOperandExpressionToken):
+                operand = f'({cls.translate(tree.token, excel, context)})'
+            elif isinstance(tree.token, OneLeftOperandExpressionToken):
                 operand = OperandTokenTranslator.translate(tree.token.left_operand, excel, context)
-                return f'{signs}self._normalize_float_number({operand} / 100)'
+                percents = tree.token.value[1].count
+            else:
+                operand = OperandTokenTranslator.translate(tree.token, excel, context)
 
-            return f'{signs}{OperandTokenTranslator.translate(tree.token, excel, context)}'
+            # every percent sign divides by 100
+            if percents:
+                operand = f'self._normalize_float_number({operand} / 100' + (f' ** {percents}' if percents > 1 else '') + ')'
+
+            return f'{signs}{operand}'
 
         left_operand = cls._translate_tree(tree.left, excel, context)
         right_operand = cls._translate_tree(tree.right, excel, context)
